@@ -44,7 +44,7 @@ type CopyParams struct {
 	FilterAnnRe string         `json:"filter_ann_re,omitempty"`
 	NFaults     int            `json:"n_faults,omitempty"`
 	FaultPicks  []uint64       `json:"fault_picks,omitempty"`
-	Faults      []FaultSpec    `json:"faults,omitempty"` // explicit placement (resolved from picks on first run)
+	Faults      []FaultSpec    `json:"faults,omitempty"`      // explicit placement (resolved from picks on first run)
 	RegProfile  *RegProfile    `json:"reg_profile,omitempty"` // remote stores: capability profile of the simulated registries
 	MountFrom   bool           `json:"mount_from,omitempty"`  // remote destination: offer the sibling repository as mount source
 	MountPre    []int          `json:"mount_pre,omitempty"`   // blobs the sibling repository of the destination registry holds
